@@ -53,7 +53,8 @@ LexLess(a, b) == IF b = <<>> THEN FALSE ELSE IF a = <<>> THEN TRUE
 \* BIP67 rank of the keys (distinct keys)
 RankOf(pubs) == [k \in 1..Len(pubs) |-> Cardinality({j \in 1..Len(pubs) : LexLess(pubs[j], pubs[k])}) + 1]
 Cfg(r) == [n |-> Len(r.pubs), m |-> r.m, holder |-> IF "holder" \in DOMAIN r THEN r.holder ELSE <<>>,
-           afs |-> IF "afs" \in DOMAIN r THEN r.afs ELSE <<>>, height |-> IF "height" \in DOMAIN r THEN r.height ELSE <<>>]
+           afs |-> IF "afs" \in DOMAIN r THEN r.afs ELSE <<>>, height |-> IF "height" \in DOMAIN r THEN r.height ELSE <<>>,
+           knows |-> IF "knows" \in DOMAIN r THEN r.knows ELSE <<>>]
 \* keys in script order: BIP67 order (wallets created with sort_keys) or, for wallets created with sort_keys=False,
 \* the order in which all of them were given the keys (r.listing)
 ScriptKeys(r) == IF r.sorted THEN LET sc == TheScript(Cfg(r), RankOf(r.pubs)) IN [i \in 1..Len(sc.keys) |-> r.pubs[sc.keys[i]]]
@@ -225,20 +226,25 @@ ArrivedAs(evs, i, w) == IF i < 1 THEN "new"
 \* attributed to those deviations; their body is still judged.
 DevRawLt == "raw-import-applies-importer-locktime"
 DevDictSeq == "dict-import-resets-sequences"
-DevSets == {{Dev}, {DevRawLt}, {DevDictSeq}, {Dev, DevRawLt}}
+DevOffDict == "offline-dict-import-forgets-multisig"
+\* the deviation sets under which an action has other successors than under the property semantics
+DevSetsFor(a) == IF a.op # "handoff" THEN {}
+                 ELSE IF a.form = "raw" THEN {{Dev}, {DevRawLt}, {Dev, DevRawLt}}
+                 ELSE IF a.form = "dict" THEN {{DevDictSeq}} ELSE {}
 DevsOf(S) == IF \E c \in S : c.dev = <<>> THEN <<>> ELSE (CHOOSE c \in S : TRUE).dev
 RECURSIVE AddNames(_, _)
 AddNames(q, D) == IF D = {} THEN q
                   ELSE LET d == CHOOSE x \in D : TRUE IN AddNames(IF d \in SetOf(q) THEN q ELSE Append(q, d), D \ {d})
-RECURSIVE Walk(_, _, _, _, _, _, _, _)
-Walk(r, cfg, C, cons, rs, i, T, TB) ==
+\* TD: wallets whose copy descends from a dictionary import by a wallet that knows only the keys (DevOffDict)
+RECURSIVE Walk(_, _, _, _, _, _, _, _, _)
+Walk(r, cfg, C, cons, rs, i, T, TB, TD) ==
     IF i > Len(r.events) THEN [v |-> "ok", at |-> 0, dev |-> DevsOf(C)]
     ELSE LET e == r.events[i]
              a == A(e, cons)
              tgt == TargetOf(a)
              N == UNION { {[st |-> x, dev |-> c.dev] : x \in Act(cfg, c.st, a, {})}
                           \cup UNION { {[st |-> x, dev |-> AddNames(c.dev, D)] : x \in Act(cfg, c.st, a, D) \ Act(cfg, c.st, a, {})} :
-                                         D \in DevSets } : c \in C }
+                                         D \in DevSetsFor(a) } : c \in C }
              K == {c \in N : Why(r, cfg, c.st, e, cons, rs) = ""}
              via == ArrivedAs(r.events, i - 1, a.w)
              \* the call raised: only the listed deviation explains that (the ceremony ends there)
@@ -253,17 +259,26 @@ Walk(r, cfg, C, cons, rs, i, T, TB) ==
              TB1 == CASE a.op = "handoff" -> IF a.w \in TB \/ rewritten THEN TB \cup {a.v} ELSE TB \ {a.v}
                       [] a.op \in {"propose", "send_to"} -> TB \ {a.w}
                       [] OTHER -> TB
+             TD1 == CASE a.op = "handoff" -> IF a.w \in TD \/ OfflineDictBreaks(cfg, a.v, a.form, {DevOffDict}) THEN TD \cup {a.v} ELSE TD \ {a.v}
+                      [] a.op \in {"propose", "send_to"} -> TD \ {a.w}
+                      [] OTHER -> TD
              P == {c \in N : c.dev = <<>>}
              c0 == CHOOSE c \in (IF P # {} THEN P ELSE N) : TRUE IN
          IF N = {} THEN [v |-> "action-not-enabled-in-the-specification", at |-> i, dev |-> <<>>]
+         \* a refused import where the importer may refuse: nothing changes
+         ELSE IF ~e.ok /\ a.op = "handoff" /\ MayRefuse(cfg, a.v, a.form) THEN Walk(r, cfg, C, cons, rs, i + 1, T, TB, TD)
+         \* ... or fails in the input class of DevOffDict (the rebuilt input is no multisig input: size estimation gives up)
+         ELSE IF ~e.ok /\ a.op = "handoff" /\ OfflineDictBreaks(cfg, a.v, a.form, {DevOffDict})
+              THEN Walk(r, cfg, {[st |-> c.st, dev |-> AddNames(c.dev, {DevOffDict})] : c \in C}, cons, rs, i + 1, T, TB, TD)
          ELSE IF ~e.ok THEN (IF D # {} /\ i = Len(r.events)
                              THEN [v |-> "ok", at |-> 0, dev |-> Append(DevsOf(D), DevDict)]
                              ELSE [v |-> "action-raised", at |-> i, dev |-> <<>>])
-         ELSE IF K # {} THEN Walk(r, cfg, K, cons, rs, i + 1, T1, TB1)
+         ELSE IF K # {} THEN Walk(r, cfg, K, cons, rs, i + 1, T1, TB1, TD1)
          ELSE IF ~bodyok THEN [v |-> Why(r, cfg, c0.st, e, cons, rs), at |-> i, dev |-> <<>>]
          \* stale or possibly corrupted signatures: nothing further of this ceremony is judged
          ELSE IF tgt \in TB1 THEN [v |-> "ok", at |-> 0,
                                     dev |-> DevsOf(IF e.tx > 0 THEN {c \in N : c.st.copy[tgt].body = cons[e.tx].body} ELSE N)]
+         ELSE IF tgt \in TD1 THEN [v |-> "ok", at |-> 0, dev |-> Append(DevsOf(C), DevOffDict)]
          ELSE IF tgt \in T1 THEN [v |-> "ok", at |-> 0, dev |-> Append(DevsOf(C), DevSign)]
          ELSE [v |-> Why(r, cfg, c0.st, e, cons, rs), at |-> i, dev |-> <<>>]
 
@@ -272,7 +287,7 @@ JudgeCeremony(r) ==
         need == Concat([k \in 1..Len(cons) |-> cons[k].need]) IN
     IF need # <<>> THEN [v |-> "need", at |-> 0, dev |-> <<>>, need |-> need, cons |-> <<>>]
     ELSE LET cfg == Cfg(r)
-             res == Walk(r, cfg, {[st |-> InitS(cfg), dev |-> <<>>]}, cons, ScriptBytes(r), 1, {}, {}) IN
+             res == Walk(r, cfg, {[st |-> InitS(cfg), dev |-> <<>>]}, cons, ScriptBytes(r), 1, {}, {}, {}) IN
          [v |-> res.v, at |-> res.at, dev |-> res.dev, need |-> <<>>, cons |-> [k \in 1..Len(cons) |-> cons[k].v]]
 
 Judge(r) == IF r.kind = "agree" THEN JudgeAgree(r) ELSE JudgeCeremony(r)
